@@ -11,7 +11,7 @@ from effects import Effects
 from lockrule import LockModel
 from report import Report
 import roles
-from terms import (origin, show, bool_edge, control_deps, reachable_without_edges, bool_fn_table,
+from terms import (origin, show, bool_edge, control_deps, reachable_without_edges, bool_fn_table, bool_fn_table_inlined,
                    eval_bool_table, calls_in, leaves, mentions)
 from c10 import classify_methods
 
@@ -119,7 +119,7 @@ def run(ctx):
         if not vf:
             R.violation("VALIDATOR", "src/server/auth.rs", "VALIDATOR|%s|missing" % v, "validator %s not found" % v)
             continue
-        rows = bool_fn_table(vf)
+        rows = bool_fn_table_inlined(F, vf)
         atoms = sorted({a for (ats, val) in rows for (a, t) in ats} | {val[1] for (ats, val) in rows if isinstance(val, tuple)})
         A = [a for a in atoms if "Extensions::get" in a and "is_some" in a]
         B = [a for a in atoms if "contains" in a and "denylist" in a and "method_name" in a]
